@@ -1,5 +1,5 @@
 #!/bin/sh
 cd /verif || exit 2
-./scripts/owsim_build.sh || exit 2
+./scripts/owsim_build.sh C07 || exit 2
 export GORACE="exitcode=0 history_size=2"
-exec .build/owsim-check C07 "$@"
+exec .build/owsim-check-C07 C07 "$@"
